@@ -406,7 +406,17 @@ pub fn run_batch<R: Rig>(rig: &R, opts: &BatchOpts) -> BatchResult {
             .samples
             .iter()
             .take(3)
-            .map(|(i, v)| json!({"run_index": i, "seed": mix(opts.seed, prop, *i), "scenario": v}))
+            .map(|(i, v)| {
+                // keep the evidence file small: a long scenario is summarised (it can always be
+                // regenerated from the batch seed and the run index)
+                let text = serde_json::to_string(v).unwrap_or_default();
+                if text.len() > 6000 {
+                    let head: String = text.chars().take(1500).collect();
+                    json!({"run_index": i, "seed": mix(opts.seed, prop, *i), "scenario_truncated": true, "scenario_chars": text.len(), "scenario_head": head})
+                } else {
+                    json!({"run_index": i, "seed": mix(opts.seed, prop, *i), "scenario": v})
+                }
+            })
             .collect();
         let mut coverage = json!({
             "evaluations": agg.evals,
